@@ -124,7 +124,8 @@ def run(ck):
         ng = rng.choice([1, 2, 2, 3])
         outmode = rng.choice(["absent", "given", "given", "missing-dir"])
         prefix = "" if outmode == "absent" else ("out/" if outmode == "given" else "nodir/")
-        files = [("S", "a.slice", SRC)]
+        # now and then a request that does not fit in a pipe's buffer (a generator that does not read it breaks the pipe)
+        files = [("S", "a.slice", SRC if rng.random() < 0.85 else SRC + "".join("struct Filler%d { a: int32, b: Sequence<string> }\n" % q for q in range(2500)))]
         if rng.random() < 0.3:
             files.append(("R", "r.slice", "module R\ncustom C\n"))
         if outmode == "given":
@@ -181,7 +182,7 @@ def run(ck):
     m = core.run_model("main", mlines)
     ck.stream("generators", description="the real slicec binary with 1..3 fake generators, each drawn from the behaviour catalogue {ok with 0..n files (also into a missing sub-directory), missing executable, not executable, "
               "exit 1/255, killed by SIGKILL/SIGSEGV (also after writing a complete reply), stderr output with exit 0 (a line, or a megabyte on stderr, on stdout, or on both), exits without reading stdin, empty reply, valid reply but exit 1, reply truncated at a random byte or right after the file sequence, complete files followed by undecodable diagnostics, "
-              "replies with unknown tagged fields (skipped) and with tag sections that never end or overrun, 8 undecodable replies (invalid UTF-8/bool/level, huge sizes, missing tag end, garbage)} x own arguments with backslashes, doubled and before separators  x output directory {absent, given, missing} x pre-existing files {identical, different}. "
+              "replies with unknown tagged fields (skipped) and with tag sections that never end or overrun, 8 undecodable replies (invalid UTF-8/bool/level, huge sizes, missing tag end, garbage)} x own arguments with backslashes, doubled and before separators  x request size {small, larger than a pipe's buffer} x output directory {absent, given, missing} x pre-existing files {identical, different}. "
               "Compared with the driver model: every startable generator started exactly once with the same request, exit status, one error naming each failing generator, exactly the model's files written below the "
               "output directory with the reply's contents, identical files left untouched, nothing written for failing generators.")
     for (gens, mat, fs, prefix, outmode, kinds), line, oo, mo in zip(metas, rlines, o, m):
